@@ -103,6 +103,8 @@ func c03Specs() []progSpec {
 		{"only-commitment", func() frontend.Circuit { return &onlyCommit{} }, func(q *big.Int) frontend.Circuit { return &onlyCommit{X: 1, Y: 2} }, nil},
 		{"commit1", func() frontend.Circuit { return &cm1{} }, func(q *big.Int) frontend.Circuit { return &cm1{X: 3, W: 5, Y: 9} }, func(q *big.Int) frontend.Circuit { return &cm1{X: 3, W: 5, Y: 10} }},
 		{"commit2", func() frontend.Circuit { return &cm2{} }, func(q *big.Int) frontend.Circuit { return &cm2{X: 3, W: 5, Y: 9, Z: 4} }, func(q *big.Int) frontend.Circuit { return &cm2{X: 3, W: 5, Y: 8, Z: 4} }},
+		{"commit2-independent", func() frontend.Circuit { return &cm2i{} }, func(q *big.Int) frontend.Circuit { return &cm2i{X: 3, W: 5, P1: 9, P2: 7} }, func(q *big.Int) frontend.Circuit { return &cm2i{X: 3, W: 5, P1: 10, P2: 7} }},
+		{"commit3", func() frontend.Circuit { return &cm3{} }, func(q *big.Int) frontend.Circuit { return &cm3{X: 2, W: 5, V: 11, P1: 4, P2: 6} }, func(q *big.Int) frontend.Circuit { return &cm3{X: 2, W: 5, V: 11, P1: 5, P2: 6} }},
 		{"hints+wide-level", func() frontend.Circuit { return &hintyCircuit{} }, func(q *big.Int) frontend.Circuit { return &hintyCircuit{X: 300, Y: 7, Z: 300*7 + 44} }, func(q *big.Int) frontend.Circuit { return &hintyCircuit{X: 300, Y: 7, Z: 1} }},
 	}
 	for _, n := range []int{1, 2, 3, 5, 6, 7, 14, 15} { // domain sizes 2..16 incl. the tiny-domain rule of the PLONK prover
@@ -233,7 +235,7 @@ func runC03(args []string) int {
 			ci++
 			for _, id := range ids {
 				oss := optsets[:1]
-				if id == ecc.BN254 && (si < 6 || o.Thorough()) {
+				if id == ecc.BN254 && (si < 8 || o.Thorough()) {
 					oss = optsets
 				}
 				for _, os := range oss {
